@@ -3,7 +3,7 @@
 From Coq Require Import List ZArith String Bool Permutation.
 Import ListNotations.
 Require Import Naga.IR.Syntax Naga.Spv.Binary.
-Require Import Naga.Iface.Reach Naga.Iface.SpvSpec Naga.Iface.SpvIface Naga.Iface.SpvIfaceProofs Naga.Iface.TextBindings
+Require Import Naga.Iface.Reach Naga.Iface.ReachGo Naga.Iface.SpvSpec Naga.Iface.SpvIface Naga.Iface.SpvIfaceProofs Naga.Iface.TextBindings
                Naga.Iface.SpvGenTies.
 Local Open Scope string_scope.
 Local Open Scope list_scope.
@@ -29,6 +29,14 @@ Theorem c17_reach_fuel_enough : forall m S0 fuel,
   forall h, In h (reach_fuel m fuel S0) <-> In h (reach m S0).
 Proof. exact reach_fuel_enough. Qed.
 Print Assumptions c17_reach_fuel_enough.
+
+(* the Go traversal itself (depth-first, visited set, out-of-range handles skipped), run with a fuel of
+   (calls in the entry function + call statements in the module + 1), terminates and yields exactly that set *)
+Theorem c17_go_traversal_equals_reach : forall m ep,
+  exists l, go_used_globals m (List.length (raw_calls (ep_func ep)) + call_count m + 1) (ep_func ep) = Some l /\
+            forall g, In g l <-> In g (used_globals m ep).
+Proof. exact go_traversal_equals_reach. Qed.
+Print Assumptions c17_go_traversal_equals_reach.
 
 (* ---- the verified SPIR-V interface checker (run on every emitted binary) ---- *)
 
@@ -157,6 +165,10 @@ Definition ex_mod :=
            [mkglobal "a" SpUniform (Some (1, 2)) 0%nat None None 0; mkglobal "b" SpStorage (Some (0, 3)) 0%nat None None 1;
             mkglobal "c" SpPrivate None 0%nat None None 0]
            [] [ex_f0; ex_f1] [mkep "main" StCompute [8; 4; 1] ex_main] [].
+
+Example c17_example_go_traversal :
+  go_used_globals ex_mod 10 ex_main = Some [0%nat; 1%nat].
+Proof. vm_compute. reflexivity. Qed.
 
 Example c17_example_used : used_globals ex_mod (mkep "main" StCompute [8; 4; 1] ex_main) = [0%nat; 1%nat].
 Proof. vm_compute. reflexivity. Qed.
